@@ -70,9 +70,14 @@ fn key_line<const AT: usize>() {
     if all_hex {
         match &r {
             Ok(k) => {
-                assert!(k[AT / 2] == hex_val(w[0]).unwrap() * 16 + hex_val(w[1]).unwrap(), "key bytes are what the hex digits spell");
-                assert!(k[AT / 2 + 1] == hex_val(w[2]).unwrap() * 16 + hex_val(w[3]).unwrap(), "key bytes are what the hex digits spell");
-                assert!(k[(AT / 2 + 2) % 32] == 0xaa, "other bytes unaffected");
+                // every key byte touched by the window (the window may straddle byte pairs)
+                let mut i = AT / 2;
+                while i <= (AT + 3) / 2 && i < 32 {
+                    let want = hex_val(line[2 * i]).unwrap() * 16 + hex_val(line[2 * i + 1]).unwrap();
+                    assert!(k[i] == want, "key bytes are what the hex digits spell");
+                    i += 1;
+                }
+                assert!(k[(AT / 2 + 3) % 32] == 0xaa, "other bytes unaffected");
             }
             Err(_) => assert!(false, "a line of 64 hex digits is a valid key"),
         }
